@@ -167,7 +167,7 @@ static std::string spell(Src &s, const RefPattern &p, bool &mutated) {
         switch (s.range(0, 8)) {
             case 0: mn[at] += (char) ('A' + s.range(0, 25)); break;                                   // one letter more
             case 1: if (mn[at].size() > 1) mn[at].pop_back(); break;                                  // one letter fewer
-            case 2: mn[at] += (char) ('0' + s.range(0, 9)); break;                                    // digits after any keyword
+            case 2: { size_t nd = 0; for (char ch : mn[at]) nd += isdigit((unsigned char) ch) != 0; if (nd < 9) mn[at] += (char) ('0' + s.range(0, 9)); break; }   // digit after any keyword (suffix values stay <= 9 digits)
             case 3: mn[at] = upper(kPool[s.range(0, 11)]); break;                                      // foreign keyword
             case 4: if (mn.size() > 1) std::swap(mn[at], mn[(at + 1) % mn.size()]); break;             // swapped order
             case 5: mn.erase(mn.begin() + (long) at); if (mn.empty()) mn.push_back("X"); break;        // missing keyword
